@@ -3,9 +3,11 @@ package main
 // Channel sq, sub-op k (C15, call-site contexts): "calling a macro … equals writing that
 // form by hand" at every kind of call site.
 //
-//   sq k MACROS ARGS PROGRAM
-//        -> k <eq|ne:…> code=<eq|ne> <dep=ok|dep=…> ctx= <context listing of the program>
+//   sq k  MACROS ARGS PROGRAM
+//        -> k <eq|ne:…> code=<eq|ne> ctx=<eq|ne> <dep=ok|dep=…>
 //         | k noexp <err|ok>          (the call has no expansion: the program must not compile)
+//   sq kc MACROS ARGS PROGRAM  -> kc ctx= <context listing of the program with the macro call>
+//                                 (compiled only; the tie of the Lean generator model `genC`)
 //
 // Three forms in the value grammar of ch_sq.go:
 //   MACROS   ( ( s:<name> [ s:p0 … ] T ) … )   macro definitions (defmac <name> [p0 …] ^T), U<k>/S<k>
@@ -22,10 +24,11 @@ package main
 // code  the complete instruction listings (closures included, digits of generated names
 //       blanked) of M and H are the same: compiling the call = compiling the expansion
 // dep   M leaves data/scope/address/loop stacks at their depth before the program
-// ctx   the context-sensitive instructions of M (overlay accessor VerifCtxListing): what the
-//       generator fields scopes / Tail / funcname and env.loopstack decide. The Lean side
-//       answers with the listing its context-carrying generator produces for M (model) and
-//       for H (spec).
+// ctx   the context-sensitive instructions (overlay accessor VerifCtxListing: what the
+//       generator fields scopes / Tail / funcname and env.loopstack decide — scopes added and
+//       removed, break/continue with their loop and pop count, tail-call jumps, calls, closures)
+//       of M and H are the same. `sq kc` prints that listing for M; the Lean side answers
+//       with the listing its context-carrying generator produces (impl vs model).
 // Every loop test and every function body of a generated program calls (zztick), a Go
 // function that fails after 300 calls, so that a program run on a broken tree terminates.
 
@@ -103,6 +106,23 @@ func sqRunProgK(defs, prog string) (res sqRunK) {
 	return
 }
 
+// compile only: the context listing, or err
+func sqCompileK(defs, prog string) string {
+	env := zygo.NewZlisp()
+	defer env.Close()
+	env.AddFunction("zztick", func(e *zygo.Zlisp, name string, args []zygo.Sexp) (zygo.Sexp, error) {
+		return &zygo.SexpBool{Val: true}, nil
+	})
+	if _, err := env.EvalString(defs + " "); err != nil {
+		return "defs-failed"
+	}
+	if err := env.LoadString(prog + " "); err != nil {
+		return "err"
+	}
+	ctx, _ := env.VerifCtxListing()
+	return strings.Join(ctx, " ")
+}
+
 func sqFill(p *sqv, with *sqv) *sqv {
 	if p.kind == 's' && p.name == "HOLE" {
 		return with
@@ -126,6 +146,11 @@ func sqProgText(p *sqv) string {
 }
 
 func sqExecK(toks []string) string {
+	listingOnly := false
+	if len(toks) > 0 && toks[0] == "kc" {
+		listingOnly = true
+	}
+	toks = toks[1:]
 	macs, i := sqParse(toks, 0)
 	if macs == nil || macs.kind != '(' || len(macs.kids) == 0 {
 		return "bad-op"
@@ -152,6 +177,9 @@ func sqExecK(toks []string) string {
 	deftext := strings.Join(defs, " ")
 	m0 := macs.kids[0]
 	call := &sqv{kind: '(', kids: append([]*sqv{{kind: 's', name: m0.kids[0].name}}, args.kids...)}
+	if listingOnly {
+		return "kc ctx= " + sqCompileK(deftext, sqProgText(sqFill(prog, call)))
+	}
 	M := sqRunProgK(deftext, sqProgText(sqFill(prog, call)))
 	var hand []*sqv
 	okh := len(args.kids) == len(m0.kids[1].kids)
@@ -173,7 +201,11 @@ func sqExecK(toks []string) string {
 	if M.full != H.full || M.compiled != H.compiled {
 		code = "code=ne"
 	}
-	ans := "k " + cmp + " " + code + " " + M.dep + " ctx= " + M.ctx
+	ctx := "ctx=eq"
+	if M.ctx != H.ctx {
+		ctx = "ctx=ne"
+	}
+	ans := "k " + cmp + " " + code + " " + ctx + " " + M.dep
 	if os.Getenv("ZYH_KDEBUG") != "" { // development aid: what the two programs did
 		ans += " ## M: " + M.outcome + " ## H: " + H.outcome
 	}
@@ -320,6 +352,9 @@ func sqKEmit(g *Gen, body sqKMac, args []string, prog string) {
 		macs = append(macs, "( s:"+m.name+" [ "+strings.Join(ps, " ")+" ] "+m.body+" )")
 	}
 	g.Emit("k ( %s ) ( %s ) %s", strings.Join(macs, " "), strings.Join(args, " "), prog)
+	if len(args) == len(body.params) {
+		g.Emit("kc ( %s ) ( %s ) %s", strings.Join(macs, " "), strings.Join(args, " "), prog)
+	}
 }
 
 func sqKPickArgs(g *Gen, params string, first bool) []string {
